@@ -38,6 +38,7 @@ struct ExecCfg {
     uint64_t op_budget = 400000000ULL;
     int dense_limit = 320;
     bool yield_at_ops = false;     // multi-task: operation boundaries are scheduling points
+    bool chk_columns = false;      // C06: a refined multi-column solve is as accurate, column by column, as the same column solved alone
     bool bridge_model = false;     // C20: keep the C simple driver's factors of the same matrix as reference model of every handle
 };
 
@@ -421,7 +422,8 @@ template <class K> struct World {
             if (o.fact != SamePattern_SameRowPerm) destroy_lu(s);
             if (!o.re.empty() && (long)o.re.size() == s.nnz) { s.orig.re = o.re; s.orig.im = o.im.empty() ? std::vector<double>(o.re.size(), 0.0) : o.im; }
             write_values(s, s.orig.re, s.orig.im);
-            s.equed[0] = 'N';
+            // equed is an output of a factorizing call: the caller's variable holds whatever an earlier call (or nobody) left there
+            { static const char stale[4] = {'B', 'R', 'C', 'X'}; s.equed[0] = stale[(o.rhs_seed >> 9) & 3]; }
             if (o.fact == SamePattern_SameRowPerm) { o.lwork = s.lu_lwork; o.align = s.ws.align; }
             else if (o.lwork > 0) s.ws.alloc(o.lwork, o.align, o.wsgarbage, wsrng);
             else s.ws.release();
@@ -649,6 +651,30 @@ template <class K> struct World {
                 }
             }
         }
+        // ---- refinement treats the right-hand sides one by one: column j of a multi-column call is as accurate as column j solved alone
+        if (cfg.chk_columns && !ilu && !query && a.nrhs >= 2 && o.refine != NOREFINE && (r.cls == XC_OK || r.cls == XC_ILLCOND) && serr.empty() && s.haveLU && !r.overflow_skipped) {
+            int cols[2] = {a.nrhs - 1, (int)((o.rhs_seed >> 12) % (uint64_t)a.nrhs)};
+            for (int ci = 0; ci < 2 && !dead; ci++) {
+                int j = cols[ci]; if (ci == 1 && j == cols[0]) break;
+                DriverArgs t; memset(&t.B, 0, sizeof t.B); memset(&t.X, 0, sizeof t.X);
+                t.s = &s; t.o = &o; t.opt = a.opt; t.opt.Fact = FACTORED; t.nrhs = 1; t.ld = a.ld; t.ldx = a.ldx;
+                t.b = cmalloc<S>((size_t)t.ld); t.x = cmalloc<S>((size_t)t.ldx);
+                memcpy(t.b, &b_in[(size_t)j * a.ld], sizeof(S) * (size_t)t.ld); memset(t.x, 0, sizeof(S) * (size_t)t.ldx);
+                K::Create_Dense_Matrix(&t.B, n, 1, t.b, t.ld, SLU_DN, K::dtype, SLU_GE); K::Create_Dense_Matrix(&t.X, n, 1, t.x, t.ldx, SLU_DN, K::dtype, SLU_GE);
+                t.ferr = cmalloc<R>(1); t.berr = cmalloc<R>(1); t.ferr[0] = t.berr[0] = (R)-7; t.rpg = (R)-7; t.rcond = (R)-7; t.info = -777;
+                t.work = a.work; t.lwork = a.lwork; StatInit(&t.stat);
+                int esc2 = guarded(body_gssvx, &t);
+                if (esc2) { dead = true; viol(r, esc2 == ESC_ABORT ? "abort" : "hang", "single-column twin of the solve"); }
+                else if (t.info == 0 || t.info == n + 1) {
+                    double eps = sizeof(R) == 4 ? 5.96e-8 : 1.11e-16;
+                    double bm = (double)a.berr[j], b1 = (double)t.berr[0];
+                    if (bm == bm && b1 == b1 && b1 >= 0 && bm > 2.0 * std::max(b1, eps))
+                        viol(r, "refine-columns", "column " + std::to_string(j + 1) + " of " + std::to_string(a.nrhs) + ": backward error " + std::to_string(bm / eps) + " eps after refinement, but " + std::to_string(b1 / eps) + " eps when the same column is solved alone with the same factors");
+                }
+                StatFree(&t.stat); Destroy_SuperMatrix_Store(&t.B); Destroy_SuperMatrix_Store(&t.X);
+                rt_caller_free(t.b); rt_caller_free(t.x); rt_caller_free(t.ferr); rt_caller_free(t.berr);
+            }
+        }
         StatFree(&a.stat);
         Destroy_SuperMatrix_Store(&a.B); Destroy_SuperMatrix_Store(&a.X);
         rt_caller_free(a.b); rt_caller_free(a.x); rt_caller_free(a.ferr); rt_caller_free(a.berr);
@@ -859,7 +885,11 @@ template <class K> struct World {
             K::CompRow_to_CompCol(m, n, (int_t)nnz, a, colind, rowptr, &at, &rowind, &colptr);
             bool ok = at && rowind && colptr;
             if (ok) { for (int j = 0; j <= n && ok; j++) if (colptr[j] != M.colptr[j]) ok = false;
-                for (long k = 0; k < nnz && ok; k++) if (rowind[k] != M.rowind[k] || !same(at[k], ScalarOps<S>::make(M.re[k], M.im[k]))) ok = false; }
+                // the order of the entries inside a column is the converter's business
+                for (int j = 0; j < n && ok; j++) for (int k = M.colptr[j]; k < M.colptr[j + 1] && ok; k++) {
+                    bool found = false; S want = ScalarOps<S>::make(M.re[k], M.im[k]);
+                    for (int q = M.colptr[j]; q < M.colptr[j + 1]; q++) if (rowind[q] == M.rowind[k] && same(at[q], want)) { found = true; break; }
+                    if (!found) ok = false; } }
             if (!ok) viol(r, "util", "CompRow_to_CompCol does not return the matrix it was given");
             for (long k = 0; k < nnz; k++) if (colind[k] != ci[k] || !same(a[k], ScalarOps<S>::make(re[k], im[k]))) { viol(r, "util", "CompRow_to_CompCol changed its input"); break; }
             if (at) sim_free(at, __FILE__, __func__, __LINE__);
